@@ -274,7 +274,7 @@ class Verdict:
         self.ub = 0
 
 
-def compare(cases, impl_lines, drv_lines, impl_failures=(), norm=None, ub_is_violation=False):
+def compare(cases, impl_lines, drv_lines, impl_failures=(), norm=None, ub_is_violation=False, model_err_is_violation=False):
     v = Verdict()
     for i, (c, il, dl) in enumerate(zip(cases, impl_lines, drv_lines)):
         if not c or c.startswith("#"):
@@ -306,6 +306,10 @@ def compare(cases, impl_lines, drv_lines, impl_failures=(), norm=None, ub_is_vio
             if iv != S:
                 v.prop_fail.append((i, c, il, M, S, "implementation output differs from the specification"))
                 continue
+        if M.startswith("ERR:") and model_err_is_violation:
+            v.model_err += 1
+            v.prop_fail.append((i, c, il, M, S, "the model reaches an undefined operation (%s) on this input: the C++ has undefined behaviour here even where no sanitizer observes it" % M))
+            continue
         if M.startswith("ERR:"):
             v.model_err += 1
             if P:
